@@ -7,9 +7,6 @@ def r0 : Regexp String := .cat (.sym "a") (.cat (.star (.sum (.sym "a") (.sym "b
 #eval parseSimple (printSimple r0)
 #eval printFull r0
 #eval parseFull (printFull r0)
-example : parseFull (printFull r0) = some r0 := by decide
-example : parseFull (printFull r0) = some r0 := by rfl
-example : parseSimple (printSimple r0) = some (.cat (.cat (.sym "a") (.star (.sum (.sym "a") (.sym "b")))) (.sym "c")) := by decide
 #check @String.length
 #print String.length
 #check @String.toList_append
